@@ -315,6 +315,9 @@ func checkC06(sc *Script, rec *evid.Rec) (vs []pbt.Violation) {
 						for _, f := range m.Fields {
 							if f.Tag == rig.TagHeartBtInt {
 								wantHB = f.Val
+								if n, err := strconv.Atoi(f.Val); err == nil {
+									wantHB = strconv.Itoa(n) // the answer carries the number, however the peer spelled it (leading zeros, plus sign)
+								}
 							}
 							if f.Tag == rig.TagEncryptMethod {
 								wantM = f.Val
